@@ -626,6 +626,17 @@ def _other_material(n: int) -> Any:
     return f
 
 
+FLAG_VALUES = [256, 257, 385]  # ZONE, ZONE|SEP, ZONE|SEP|REVOKE: the flag words the data classes represent
+
+
+def _other_flags(n: int) -> Any:
+    def f(s: str) -> str:
+        v = _int(s)
+        return str(FLAG_VALUES[(FLAG_VALUES.index(v) + n) % 3] if v in FLAG_VALUES else FLAG_VALUES[n % 3])
+
+    return f
+
+
 def _respell(s: str) -> str:
     """another lexical form of the same xsd:nonNegativeInteger (a leading zero)"""
     return "0" + s.strip(" \t\r\n").lstrip("+")
@@ -668,8 +679,8 @@ DUP_KINDS: dict[str, tuple[str, Any, str]] = {
     "key-same-id-other-material": ("Key", lambda c, n: _set_leaf(c, "PublicKey", _other_material(n)), "any"),
     "key-same-id-other-material-right-tag": ("Key", lambda c, n: (_set_leaf(c, "PublicKey", _other_material(n)), _fix_tag(c)), "any"),
     "key-same-material-other-tag": ("Key", lambda c, n: _set_attr(c, "keyTag", _bump(n)), "any"),
-    "key-same-material-other-flags": ("Key", lambda c, n: _set_leaf(c, "Flags", lambda s: str(_int(s) ^ (1 if n == 1 else 128))), "any"),
-    "key-same-material-other-flags-right-tag": ("Key", lambda c, n: (_set_leaf(c, "Flags", lambda s: str(_int(s) ^ (1 if n == 1 else 128))), _fix_tag(c)), "any"),
+    "key-same-material-other-flags": ("Key", lambda c, n: _set_leaf(c, "Flags", _other_flags(n)), "any"),
+    "key-same-material-other-flags-right-tag": ("Key", lambda c, n: (_set_leaf(c, "Flags", _other_flags(n)), _fix_tag(c)), "any"),
     "key-same-id-other-ttl": ("Key", lambda c, n: _set_leaf(c, "TTL", _bump(n, 2**31)), "any"),
     "key-verbatim": ("Key", None, "any"),
     "key-verbatim-respelled": ("Key", lambda c, n: (_set_attr(c, "keyTag", _respell), _set_leaf(c, "Flags", _respell)) if n == 1 else (_set_leaf(c, "TTL", _respell),), "any"),
